@@ -10,6 +10,9 @@ pub mod inject;
 pub mod roles;
 pub mod checkers;
 pub mod files;
+pub mod maps;
+pub mod identity;
+pub mod trackerapi;
 
 pub const ALL: &[&str] = &["C10", "C11"];
 
@@ -19,6 +22,8 @@ pub fn run(prop: &str, tier: Tier, seed: u64) -> i32 {
     "C10" | "C11" => dagprops::run(prop, tier, seed),
     "C12" => checkers::run(tier, seed),
     "C13" => files::run(tier, seed),
+    "C14" => maps::run(tier, seed),
+    "C15" => identity::run(tier, seed),
     p if build::spec_of(p).is_some() => build::run(prop, tier, seed),
     _ => { eprintln!("unknown property {}", prop); 2 }
   }
@@ -31,6 +36,9 @@ pub fn replay(path: &Path) -> Result<CheckResult, String> {
     "C10" | "C11" => dagprops::replay(&prop, &label, path),
     "C12" => checkers::replay(path),
     "C13" => files::replay(path),
+    "C14" => maps::replay(path),
+    "C15" => identity::replay(path),
+    "C17" if label == "api" => trackerapi::replay(path),
     p if build::spec_of(p).is_some() => build::replay(&prop, &label, path),
     _ => Err(format!("unknown property {}", prop)),
   }
